@@ -15,6 +15,9 @@ import (
 // restartPct is the probability of a restart at each eligible point when a crash seed is given.
 const restartPct = 12
 
+// RestartPct overrides restartPct when positive (vharness twin -crashpct).
+var RestartPct = 0
+
 // Twin drives an Interp and collects the twin trace.
 type Twin struct {
 	IP  *Interp
@@ -57,7 +60,11 @@ func (t *Twin) flush() { t.Out, t.pending = append(t.Out, t.pending...), nil }
 // restart happens with probability restartPct when a crash seed was given. Inside a block the
 // interrupted block is replayed and the T lines of the block are taken from the replay.
 func (t *Twin) restart() error {
-	if t.rng == nil || t.rng.Intn(100) >= restartPct || t.IP.Stopped() {
+	pct := restartPct
+	if RestartPct > 0 {
+		pct = RestartPct
+	}
+	if t.rng == nil || t.rng.Intn(100) >= pct || t.IP.Stopped() {
 		return nil
 	}
 	r := t.IP.R
